@@ -12,6 +12,7 @@ import random
 import subprocess
 import sys
 import time
+import traceback
 import warnings
 
 from .rng import H, Tape
@@ -439,11 +440,18 @@ def run_batch(prop_name, tier, verif_seed, n_runs, wall_budget_s, workers=None, 
             path = write_replay(prop.ID, verif_seed, r.idx, r.plan, r.decisions or [], r, False,
                                 {'batch_level': True})
         else:
-            mplan, mtape, tried = minimise(prop, r.plan, r.decisions, vclass, signature)
-            rr = guarded_execute(prop, mplan, Tape(replay=mtape))
-            path = write_replay(prop.ID, verif_seed, r.idx, mplan, rr.decisions, rr, True,
-                                {'shrink_attempts': tried, 'seeds_failing_in_batch': [x.idx for x in rs][:20]})
-            if not replay_in_fresh_interpreter(path):
+            try:
+                mplan, mtape, tried = minimise(prop, r.plan, r.decisions, vclass, signature)
+                rr = guarded_execute(prop, mplan, Tape(replay=mtape))
+                path = write_replay(prop.ID, verif_seed, r.idx, mplan, rr.decisions, rr, True,
+                                    {'shrink_attempts': tried,
+                                     'seeds_failing_in_batch': [x.idx for x in rs][:20]})
+                ok = rr.vclass == vclass and replay_in_fresh_interpreter(path)
+            except Exception:
+                # a failure of the minimiser must never hide the violation itself
+                print('minimisation failed:\n%s' % traceback.format_exc(), file=sys.stderr)
+                ok = False
+            if not ok:
                 # fall back to the un-minimised recording
                 path = write_replay(prop.ID, verif_seed, r.idx, r.plan, r.decisions, r, False)
         print('violation class=%s signature=%s runs=%d detail=%s' % (
